@@ -62,7 +62,7 @@ package c20
 // OTEL_BLRP_MAX_QUEUE_SIZE=9223372036854775807 never returns).
 //
 // Timing: a schedule delay of 20 ms (10 ms for logs) must lead to an export
-// within 3 s for the span processor (its default is 5 s) and within 30 s for
+// within 3 s for the span processor (its default is 5 s) and within 10 s for
 // the log processor; a schedule delay of one hour or the default must not
 // export within 100 ms (a timer cannot fire early, so this cannot fail on a
 // correct tree). Export timeouts are read from the deadline of the context
@@ -825,8 +825,8 @@ func runBLRP(r *sdkRun, acc accept) {
 		if short {
 			select {
 			case <-rec.first:
-			case <-time.After(30 * time.Second):
-				r.bad("blrp_schedule_delay", "export interval %v ms expected but no export within 30 s (%s)", acc, describeSDK(c))
+			case <-time.After(10 * time.Second):
+				r.bad("blrp_schedule_delay", "export interval %v ms expected but no export within 10 s (%s)", acc, describeSDK(c))
 			}
 		} else {
 			select {
